@@ -40,4 +40,17 @@ def runOk (r : Region) : Nat → List POp → Prop
   | _, [] => True
   | p, op :: ops => fieldOk r p op ∧ match stepPtr r.k p op with | some q => runOk r q ops | none => True
 
+/-- `malloc_in_sandbox<T>(count)` with an untrusted allocator and a backend that does not clamp: the
+allocator (guest code) returns the representation `v`, the backend turns a non-null `v` into the
+address `base + v` -- possibly outside the region.  As coded: `count = 0` aborts; a null result is
+passed on; otherwise the address must lie in the sandbox's memory and the last element must be in
+the same sandbox as the first (`uintptr_t` arithmetic, mod 2^64). `size` is `sizeof(T)`. -/
+def mallocIn (s : Sbx) (v count size : Nat) : Option Nat :=
+  if count = 0 then none else
+  if v = 0 then some 0 else
+  let p := s.region.base + v
+  if ¬ s.region.contains p then none else
+  let e := (p + (count - 1) * size) % W64
+  if sameSbx s.region.k p e then some p else none
+
 end Rlbox
